@@ -7,6 +7,7 @@
 pub mod ops;
 pub mod ops2;
 pub mod ops3;
+pub mod ops4;
 
 use crate::driver::{Acc, CheckImpl, Tier, Viol, announce};
 use crate::fhe::{BACKENDS, EvalSpec, PrepSpec, RunOut, RunResult, Window, WindowMode, backend};
